@@ -47,7 +47,10 @@ theorem head_roundtrip_any_segmentation (h : Head) (ows : List (Bytes × Bytes))
     (hwf : Spec.wfHead h = true)
     (hows : ∀ o ∈ ows, Spec.isOwsList o.1 = true ∧ Spec.isOwsList o.2 = true) :
     ∃ s', readHeadO ⟨Spec.renderHead h ows ++ rest, fin, orc⟩ = (.ok h, s') ∧ s'.bytes = rest ∧ s'.fin = fin := by
-  sorry
+  have hs := readHeadO_spec (Spec.renderHead h ows ++ rest) fin orc
+  rw [head_roundtrip h ows rest fin hwf hows] at hs
+  obtain ⟨orc', ho⟩ := hs
+  exact ⟨⟨rest, fin, orc'⟩, ho, rfl, rfl⟩
 
 /-- non-vacuity: a concrete head with a duplicate header, an empty value and a colon in a value. -/
 example : readHead (Spec.renderHead ⟨⟨b!"get"⟩, b!"/a?b", ⟨1, 1⟩,
